@@ -71,6 +71,24 @@ def withLink (vpn : Bool) (r : Req) (ip : Bytes) : Except FillErr Bytes :=
 /-- flag word of the TCP header: data offset, NS, and byte 13 -/
 def tcpFlagWord (doff flags : Nat) : Nat := doff * 4096 + flags % 512
 
+/-- bit of the 9-bit flag set that `layers.TCP.SerializeTo` (`flagsAndOffset` + byte 13) sets for a `layers.TCP`
+    struct field -/
+def tcpFieldBit : String → Nat
+  | "FIN" => 1 | "SYN" => 2 | "RST" => 4 | "PSH" => 8 | "ACK" => 16 | "URG" => 32 | "ECE" => 64 | "CWR" => 128
+  | "NS" => 256 | _ => 0
+
+/-- what one CLI flag name contributes: its row of the regenerated table
+    `(name, PacketFiller field set by tcpPacketFlagOptions[name], layers.TCP field that field feeds in Fill)` -/
+def optionBit (table : List (String × String × String)) (name : String) : Nat :=
+  match table.find? (fun e => e.1 == name) with
+  | some e => tcpFieldBit e.2.2
+  | none => 0
+
+/-- `newTCPScanMethod`: `for _, flag := range o.tcpFlags { opts = append(opts, tcpPacketFlagOptions[flag]) }`,
+    then `NewPacketFiller(opts...)` — the flag set the filler ends up with -/
+def flagsOfNames (table : List (String × String × String)) (names : List String) : Nat :=
+  names.foldl (fun acc n => acc ||| optionBit table n) 0
+
 /-- `tcp.PacketFiller.Fill`: `flags` = NS<<8 | CWR ECE URG ACK PSH RST SYN FIN as set by the options;
     `rndId < 65535`, `rndPort < 28232`, `rndSeq < 2^32` -/
 def fillTCP (vpn : Bool) (flags : Nat) (r : Req) (rndId rndPort rndSeq : Nat) : Except FillErr Bytes :=
